@@ -2316,3 +2316,70 @@ func c18R14(c *Ctx, r *Report) {
 	r.Check(helperPos != token.NoPos && fallbackPos != token.NoPos && helperPos < fallbackPos, rule, fn.Name(), "a narrowed union's struct payload is addressed in place", c.pos(fn.Decl.Pos()),
 		"the address of a field of a variable narrowed from a union is taken on the copy that UnionExtract makes of the payload: `if u is Big { u.D = 50; io::Println(u.D); bump(&'u.E); io::Println(u.E); }` printed 1 and 2 — every write was lost")
 }
+
+// ---- C06.R11: a constant does not share the storage of a variable -------------------------------------------------
+
+func init() {
+	lateInits = append(lateInits, func() {
+		props["C06"].Quick = append(props["C06"].Quick, c06R11)
+		props["C06"].Explanation += " (R11) checkVarDecl applies the storage-sharing check in both directions: under isConst it calls a helper that combines sharesStorageOnCopy with checkMutability and reports an initialiser that is a mutable place (`const cm := m` for a map variable m), as the other direction reports a variable initialised from a constant."
+	})
+}
+
+func c06R11(c *Ctx, r *Report) {
+	const rule = "C06.R11"
+	r.Describe(rule, "typechecker.checkVarDecl: a statement guarded by `isConst` (as a conjunct, not negated) calls a helper that calls sharesStorageOnCopy and checkMutability, returns early unless the result is MutabilityAllowed, and adds a diagnostic")
+	fn := c.LookupFn(pkgTC, "checkVarDecl")
+	if !r.Anchor(rule, fn != nil && fn.Decl.Body != nil, "typechecker.checkVarDecl") {
+		return
+	}
+	info := fn.Info()
+	isConst := fn.ParamNamed("isConst")
+	if !r.Anchor(rule, isConst != nil, "checkVarDecl(…, isConst)") {
+		return
+	}
+	good := func(h *Fn) bool {
+		if h == nil || h.Decl == nil || h.Decl.Body == nil {
+			return false
+		}
+		hinfo := h.Info()
+		got := map[string]bool{}
+		for _, cl := range callsIn(h.Decl.Body, true) {
+			if f := callee(hinfo, cl); f != nil {
+				got[f.Name()] = true
+			}
+		}
+		testsAllowed := false
+		ast.Inspect(h.Decl.Body, func(x ast.Node) bool {
+			if b, ok := x.(*ast.BinaryExpr); ok && b.Op == token.NEQ {
+				if o := constObj(hinfo, b.Y); o != nil && o.Name() == "MutabilityAllowed" {
+					testsAllowed = true
+				}
+			}
+			return true
+		})
+		return got["sharesStorageOnCopy"] && got["checkMutability"] && got["Add"] && testsAllowed
+	}
+	found := false
+	var pos token.Pos = fn.Decl.Pos()
+	walkWithStack(fn.Decl.Body, func(x ast.Node, stack []ast.Node) bool {
+		cl, ok := x.(*ast.CallExpr)
+		if !ok || !good(c.FnOf(callee(info, cl))) {
+			return true
+		}
+		for _, a := range stack {
+			ifs, isIf := a.(*ast.IfStmt)
+			if !isIf || !containsNode(ifs.Body, cl) {
+				continue
+			}
+			for _, cj := range conjuncts(ifs.Cond) {
+				if objOf(info, cj) == isConst {
+					found, pos = true, cl.Pos()
+				}
+			}
+		}
+		return true
+	})
+	r.Check(found, rule, fn.Name(), "a constant's initialiser is checked for sharing the storage of a variable", c.pos(pos),
+		"a constant may be bound to the handle of a mutable dynamic array or map: `let m := { \"a\" => 1 } as map[str]i32; const cm := m; m[\"a\"] = 5; io::Println(cm[\"a\"] ?? -1);` prints 5 — the value read through the constant changed")
+}
